@@ -254,7 +254,13 @@ fn op_build<T: Kind>(req: &Value) -> Value {
     if via == "new" {
         return result_json::<T>(GenericPurl::<T>::new(ty, unhex(&req["name"])));
     }
-    let mut b: GenericPurlBuilder<T> = if via == "parsed" {
+    let mut b: GenericPurlBuilder<T> = if via == "parsed_long" {
+        // as "parsed", with every component longer than a small string's inline capacity
+        match T::parse(&format!("pkg:{}/github.com/some-org/some-repo/n@1.0.0-beta.1+build.20240101?download_url=https://example.org/a.tgz%3Fsig%3D0123456789abcdef#src/main/java/com/example", unhex(&req["type"]))) {
+            Some(Ok(p)) => p.into_builder(),
+            _ => return json!({"unsupported": "base PURL does not parse"}),
+        }
+    } else if via == "parsed" {
         // edit-and-rebuild: `pkg:<type>/ns/n@1?a=1&c=3#s` parsed and turned back into a builder
         match T::parse(&format!("pkg:{}/ns/n@1?a=1&c=3#s", unhex(&req["type"]))) {
             Some(Ok(p)) => p.into_builder(),
@@ -282,6 +288,28 @@ fn op_build<T: Kind>(req: &Value) -> Value {
             },
             "without_qualifier" => b.without_qualifier(a(1)),
             "without_qualifiers" => b.without_qualifiers(),
+            "truncate_namespace" => {
+                let n: usize = a(1).parse().unwrap_or(0);
+                b.parts.namespace.truncate(n);
+                b
+            },
+            "truncate_version" => {
+                let n: usize = a(1).parse().unwrap_or(0);
+                b.parts.version.truncate(n);
+                b
+            },
+            "truncate_subpath" => {
+                let n: usize = a(1).parse().unwrap_or(0);
+                b.parts.subpath.truncate(n);
+                b
+            },
+            "truncate_qualifier" => {
+                let n: usize = a(2).parse().unwrap_or(0);
+                if let Some(v) = b.parts.qualifiers.get_mut(a(1)) {
+                    v.truncate(n);
+                }
+                b
+            },
             "set_namespace" => {
                 b.parts.namespace = a(1).into();
                 b
@@ -343,10 +371,36 @@ fn op_pair<T: Kind>(req: &Value) -> Value {
             }
         } else {
             let ty = T::make(&unhex(&r["type"]))?;
-            let mut b: GenericPurlBuilder<T> = GenericPurlBuilder::new(ty, unhex(&r["name"]));
+            let mut b: GenericPurlBuilder<T> = if r["via"] == "parsed_long" {
+                match T::parse(&format!("pkg:{}/github.com/some-org/some-repo/n@1.0.0-beta.1+build.20240101?download_url=https://example.org/a.tgz%3Fsig%3D0123456789abcdef#src/main/java/com/example", unhex(&r["type"]))) {
+                    Some(Ok(p)) => p.into_builder(),
+                    _ => return Err("base PURL does not parse".into()),
+                }
+            } else {
+                GenericPurlBuilder::new(ty, unhex(&r["name"]))
+            };
             for st in r["steps"].as_array().map(|v| v.as_slice()).unwrap_or(&[]) {
                 let a = |i: usize| unhex(&st[i]);
                 b = match st[0].as_str().unwrap() {
+                    "truncate_version" => {
+                        b.parts.version.truncate(a(1).parse().unwrap_or(0));
+                        b
+                    },
+                    "truncate_namespace" => {
+                        b.parts.namespace.truncate(a(1).parse().unwrap_or(0));
+                        b
+                    },
+                    "truncate_subpath" => {
+                        b.parts.subpath.truncate(a(1).parse().unwrap_or(0));
+                        b
+                    },
+                    "truncate_qualifier" => {
+                        let n: usize = a(2).parse().unwrap_or(0);
+                        if let Some(v) = b.parts.qualifiers.get_mut(a(1)) {
+                            v.truncate(n);
+                        }
+                        b
+                    },
                     "with_namespace" => b.with_namespace(a(1)),
                     "with_version" => b.with_version(a(1)),
                     "with_subpath" => b.with_subpath(a(1)),
